@@ -59,7 +59,7 @@ def run(ctx):
                     if l.startswith("ORACLE "):
                         C.add_violation(ctx, signature(l), "corpus/%s: %s" % (name, re.sub(r"[0-9a-f]{60,}", "<bytes>", l)[:300]),
                                         "# C11: %s\n# replay: harness damage --replay %s --history %s\n%s" % (l[:1500], img, hist_file, open(hist_file).read()))
-        rc, out = C.harness(["damage", "--seed", ctx.seed, "--bases", blist, "--count", 8000 if quick else 400000, "--max-ops", 12, "--keepdir", keep], timeout=20000)
+        rc, out = C.harness(["damage", "--seed", ctx.seed, "--bases", blist, "--count", 20000 if quick else 400000, "--max-ops", 12, "--keepdir", keep], timeout=20000)
         if rc != 0:
             ctx.undischarged.append("harness damage campaign crashed: " + out[-300:])
             return C.finish(ctx)
